@@ -241,7 +241,11 @@ func (a *recAttester) Attest(ctx context.Context, duty *attester.Duty) ([]*phase
 		inv.EndStep = simrt.Step()
 		return res, err
 	}
-	simrt.Sleep(ctx, 300*time.Millisecond, "rec/attest")
+	d := 300 * time.Millisecond
+	if a.r.Plan.AttestTakes > 0 {
+		d = a.r.Plan.AttestTakes // slow node, slow signer
+	}
+	simrt.Sleep(ctx, d, "rec/attest")
 	inv.EndStep = simrt.Step()
 	return nil, nil
 }
@@ -628,6 +632,17 @@ func Run(ctx context.Context, p *Plan, hooks *Hooks) *Record {
 				}
 			}
 			return "", 0
+		}
+	}
+	if p.SignerSlow > 0 {
+		inner := rec.Signer.Fault
+		rec.Signer.Fault = func(r *SignReq) (string, time.Duration) {
+			o := ""
+			if inner != nil {
+				o, _ = inner(r)
+			}
+			simrt.Probe("fault:signer-slow")
+			return o, p.SignerSlow
 		}
 	}
 	var nodes []*Node
